@@ -4,10 +4,12 @@ import (
 	"bytes"
 	"context"
 	"fmt"
+	"io"
 	"math/rand"
 	"net/http"
 
 	"github.com/buchgr/bazel-remote/v2/cache"
+	"github.com/buchgr/bazel-remote/v2/cache/disk"
 	pb "github.com/buchgr/bazel-remote/v2/genproto/build/bazel/remote/execution/v2"
 	"google.golang.org/grpc/codes"
 	"google.golang.org/grpc/status"
@@ -219,6 +221,114 @@ func normalise(m *pb.ActionResult, workerGiven bool) *pb.ActionResult {
 	return c
 }
 
+// deinlined lists the contents that up carried inline and that view refers to by digest only.
+func deinlined(up, view *pb.ActionResult) (out [][]byte) {
+	if len(up.StdoutRaw) > 0 && len(view.StdoutRaw) == 0 && view.StdoutDigest != nil {
+		out = append(out, up.StdoutRaw)
+	}
+	if len(up.StderrRaw) > 0 && len(view.StderrRaw) == 0 && view.StderrDigest != nil {
+		out = append(out, up.StderrRaw)
+	}
+	for _, uf := range up.OutputFiles {
+		if len(uf.Contents) == 0 {
+			continue
+		}
+		for _, vf := range view.OutputFiles {
+			if vf.Path == uf.Path && len(vf.Contents) == 0 && vf.Digest != nil {
+				out = append(out, uf.Contents)
+			}
+		}
+	}
+	return
+}
+
+// acDeinlineAfterEviction: ActionCache.tla's AEvictCas followed by ARead("grpc", FALSE).  Inline contents (with
+// and without a digest next to them) are uploaded over gRPC - which copies them to the CAS -, the CAS copy is
+// then evicted by pressure while the action result is kept recent, and a read that does not ask for the
+// contents inline must again leave them in the CAS.
+func acDeinlineAfterEviction(seed int64, mode string) (viols []drv.Violation, n int, err error) {
+	rng := rand.New(rand.NewSource(seed + 77))
+	for _, withDigest := range []bool{true, false} {
+		for _, field := range []string{"file", "stdout"} {
+			if field == "file" && !withDigest {
+				continue // an output file without a digest is not a valid message
+			}
+			f, e := fe.New(fe.Opts{Mode: mode, MaxSize: 12 * 4096})
+			if e != nil {
+				return viols, n, e
+			}
+			n++
+			c := drv.GenData(rng, 300+rng.Intn(500), 0)
+			ar := &pb.ActionResult{ExitCode: 0}
+			if field == "file" {
+				of := &pb.OutputFile{Path: "bazel-out/gen.h", Contents: c}
+				if withDigest {
+					of.Digest = dg(c)
+				}
+				ar.OutputFiles = []*pb.OutputFile{of}
+			} else {
+				ar.StdoutRaw = c
+				if withDigest {
+					ar.StdoutDigest = dg(c)
+				}
+			}
+			key := drv.MkBlob([]byte(fmt.Sprintf("acevict-%d-%v-%s", seed, withDigest, field))).Hash
+			bad := func(fmtS string, a ...any) {
+				viols = append(viols, drv.Violation{Prop: "C11", What: fmt.Sprintf("inline %s (digest given: %v) uploaded over gRPC, its CAS copy evicted, mode=%s: ", field, withDigest, mode) + fmt.Sprintf(fmtS, a...)})
+			}
+			ctx, cancel := fe.Ctx()
+			_, e = f.AC.UpdateActionResult(ctx, &pb.UpdateActionResultRequest{ActionDigest: &pb.Digest{Hash: key, SizeBytes: 7}, ActionResult: ar})
+			cancel()
+			if e != nil {
+				f.Close()
+				return viols, n, fmt.Errorf("UpdateActionResult: %v", e)
+			}
+			d := dg(c)
+			evicted := false
+			for i := 0; i < 40 && !evicted; i++ {
+				// keep the action result recent, add one block of pressure
+				f.Cache.Contains(context.Background(), cache.AC, key, -1)
+				b := drv.MkBlob(drv.GenData(rng, 3000, 0))
+				if e := f.Cache.Put(context.Background(), cache.CAS, b.Hash, int64(len(b.Data)), bytes.NewReader(b.Data)); e != nil {
+					break
+				}
+				// (looked up in a snapshot: a Contains would refresh the blob's recency)
+				evicted = true
+				for _, en := range disk.VerifSnapshot(f.Cache).Entries {
+					if en.Key == cache.LookupKey(cache.CAS, d.Hash) {
+						evicted = false
+					}
+				}
+			}
+			if ok, _ := f.Cache.Contains(context.Background(), cache.AC, key, -1); !evicted || !ok {
+				f.Close()
+				fmt.Printf("acDeinlineAfterEviction: situation not reached (field %s digest %v: CAS copy evicted=%v, action result kept=%v)\n", field, withDigest, evicted, ok)
+				continue // the schedule of evictions did not produce the situation; nothing to observe
+			}
+			ctx, cancel = fe.Ctx()
+			got, ge := f.AC.GetActionResult(ctx, &pb.GetActionResultRequest{ActionDigest: &pb.Digest{Hash: key, SizeBytes: 7}})
+			cancel()
+			if ge == nil {
+				for _, cc := range deinlined(ar, got) {
+					rc, _, e := f.Cache.Get(context.Background(), cache.CAS, d.Hash, d.SizeBytes, 0)
+					var b []byte
+					if e == nil && rc != nil {
+						b, _ = io.ReadAll(rc)
+						rc.Close()
+					}
+					if rc == nil || !bytes.Equal(b, cc) {
+						bad("GetActionResult replaced the contents by the digest %s/%d, but the CAS does not hold that blob (found=%v, %v)", d.Hash[:12], d.SizeBytes, rc != nil, e)
+					}
+				}
+			} else if status.Code(ge) != codes.NotFound {
+				bad("GetActionResult fails: %v", ge)
+			}
+			f.Close()
+		}
+	}
+	return viols, n, nil
+}
+
 // RunACHists executes upload histories.
 func RunACHists(hists []ACHist, seed int64, mode string, stride int) (runs []ACHistRun, viols []drv.Violation, err error) {
 	rng := rand.New(rand.NewSource(seed))
@@ -237,6 +347,7 @@ func RunACHists(hists []ACHist, seed int64, mode string, stride int) (runs []ACH
 		}
 		run := ACHistRun{Hist: h}
 		var want *pb.ActionResult // normalised message expected to be stored
+		var lastAR *pb.ActionResult // the latest accepted message as it was uploaded
 		var wantWorker string
 		for i, u := range h.Uploads {
 			ar, raw, e := buildMsg(f, rng, u.Msg)
@@ -256,6 +367,7 @@ func RunACHists(hists []ACHist, seed int64, mode string, stride int) (runs []ACH
 			if h.Outcomes[i] == "accept" {
 				given := ar.ExecutionMetadata != nil && ar.ExecutionMetadata.Worker != ""
 				want = normalise(ar, given)
+				lastAR = ar
 				wantWorker = ""
 				if given {
 					wantWorker = ar.ExecutionMetadata.Worker
@@ -302,6 +414,24 @@ func RunACHists(hists []ACHist, seed int64, mode string, stride int) (runs []ACH
 				continue
 			}
 			views["httpJson"] = jp
+			// ActionCache.tla DeinlinedInCas: contents that were uploaded inline and come back as a digest only
+			// are a CAS blob under that digest by the time the reply is sent
+			if lastAR != nil {
+				for name, v := range views {
+					for _, c := range deinlined(lastAR, v) {
+						d := dg(c)
+						rc, _, ge := f.Cache.Get(context.Background(), cache.CAS, d.Hash, d.SizeBytes, 0)
+						var b []byte
+						if ge == nil && rc != nil {
+							b, _ = io.ReadAll(rc)
+							rc.Close()
+						}
+						if !bytes.Equal(b, c) || rc == nil {
+							bad("%s view replaced %d bytes that were uploaded inline (upload %d, via %s) by the digest %s/%d, but the CAS does not hold that blob (found=%v, %v)", name, len(c), h.Stored, h.Uploads[h.Stored-1].Enc, d.Hash[:12], d.SizeBytes, rc != nil, ge)
+						}
+					}
+				}
+			}
 			for name, v := range views {
 				if v.ExecutionMetadata == nil || v.ExecutionMetadata.Worker == "" {
 					bad("%s view of the stored message has no worker name", name)
@@ -317,7 +447,9 @@ func RunACHists(hists []ACHist, seed int64, mode string, stride int) (runs []ACH
 		}
 		runs = append(runs, run)
 	}
-	return runs, viols, nil
+	v2, _, e := acDeinlineAfterEviction(seed, mode)
+	viols = append(viols, v2...)
+	return runs, viols, e
 }
 
 // lyingDigest is a digest that does not describe c: another blob's digest, the right size with a wrong
